@@ -58,6 +58,10 @@ def eq3(a, b):
     return None if same else False
 
 
+class ModelReject(Exception):
+    """the model's counterpart of a value rejected by validation"""
+
+
 class MEvent:
     __slots__ = ('what', 'name', 'old', 'new', 'triggered', 'old_dc', 'type_dc', 'new_alt', 'has_alt', 'tdef', 'new_dc')
 
@@ -112,6 +116,13 @@ class DispatchModel:
     def add_obj(self, oid, values, event_params=()):
         self.objs[oid] = MObj(oid, values, event_params)
 
+    def inherit_watchers(self, oid, src, name):
+        """a class that copies a Parameter of its base on the first class-level assignment starts with the base's watchers and value"""
+        for key, lst in self.objs[src].watchers.items():
+            if key[0] == name:
+                self.objs[oid].watchers[key] = list(lst)
+        self.objs[oid].values[name] = self.objs[src].values[name]
+
     def watch(self, w):
         o = self.objs[w.obj]
         if self.depth and any((w.obj, p) in s for s in self.inflight for p in w.params):
@@ -125,12 +136,15 @@ class DispatchModel:
         o = self.objs[w.obj]
         if self.depth and any((w.obj, p) in s for s in self.inflight for p in w.params):
             self.ambiguous = self.ambiguous or 'watcher removed while an event for its parameter is in flight'
-        if any(t[0] is w for t in o.queue):
+        if any(t[0] is w or (t[0].wid == w.wid and t[0].obj == w.obj) for t in o.queue):
             self.ambiguous = self.ambiguous or 'watcher removed while it holds a deferred event'
         for p in w.params:
             lst = o.watchers.get((p, w.what), [])
-            if w in lst:
-                lst.remove(w)
+            # removal is by equality: of two identical registrations of one callback the first one goes
+            for i, x in enumerate(lst):
+                if x is w or (x.wid == w.wid and x.obj == w.obj):
+                    del lst[i]
+                    break
 
     # -- assignment --------------------------------------------------------------------
     def set(self, oid, name, value):
@@ -243,20 +257,30 @@ class DispatchModel:
                 self.inflight.pop()
 
     # -- batching scopes ---------------------------------------------------------------------
-    def update(self, oid, items):
+    def update(self, oid, items, fail_at=None):
+        """fail_at=k: the k-th key is rejected - the keys before it are applied and announced no later than the raise"""
         o = self.objs[oid]
         saved = o.batch
         o.batch = True
         hold = [k for k, _ in items if k in o.event_params] if oid not in self.event_hold else []
         if hold:
             self.event_hold.add(oid)
+        failed = fail_at is not None
         try:
-            for k, v in items:
+            for i, (k, v) in enumerate(items):
+                if failed and i == fail_at:
+                    break
                 self.set(oid, k, v)
         finally:
             o.batch = saved
         if not saved:
             self.flush(o)
+        if failed:
+            if hold:
+                self.event_hold.discard(oid)
+                for k in hold:
+                    o.values[k] = False
+            raise ModelReject()
         if hold:
             self.event_hold.discard(oid)
             for k in hold:
